@@ -17,9 +17,22 @@ Definition vdtype (vc : vcell) : dt := snd (fst vc).
    whatever the file array declares), its values. *)
 Definition val (dk : disk) (c : cell) : vcell :=
   match c with
-  | OnDisk f v sh d =>
+  | OnDisk f v sh d fl =>
     match dk f v with
-    | Some st => (sh, s_realised st, Some (s_unpacked st))
+    | Some st => (sh, s_realised fl st, Some (s_unpacked fl st))
+    | None => (sh, d, None)
+    end
+  | InMem sh d a => (sh, d, Some a)
+  end.
+
+(* ... and what eager access under the options the dataset was READ with sees
+   (cfdm.read(mask=, unpack=): netcdf_indexer(mask=, unpack=) applied to the whole
+   variable), whatever flags the object itself happens to carry. *)
+Definition val0 (fl0 : flags) (dk : disk) (c : cell) : vcell :=
+  match c with
+  | OnDisk f v sh d _ =>
+    match dk f v with
+    | Some st => (sh, s_realised fl0 st, Some (s_unpacked fl0 st))
     | None => (sh, d, None)
     end
   | InMem sh d a => (sh, d, Some a)
